@@ -1567,7 +1567,9 @@ def run(ctx):
     corpus = []
     if cdir.exists():
         for p in sorted(cdir.glob("*.json")):
-            corpus.append(json.loads(p.read_text()))
+            c = json.loads(p.read_text())
+            if not c.get("unit"):                          # (unit entries are replay files of unit findings; the unit generators cover them)
+                corpus.append(c)
     for i, (kind, var) in enumerate(plan):
         scs.append(gen_scenario(ctx, "s%d" % i, kind, imgs, sizes, var))
     for j, c in enumerate(corpus):
@@ -1703,6 +1705,8 @@ def run(ctx):
 def replay(ctx, path):
     import random
     body = json.loads(open(path).read())
+    if "replay" not in body and "lines" in body:          # a corpus entry (corpus/C19/*.json) is replayable as it is
+        body = {"seed": 0, "replay": {"entry": body, "config": body.get("config", "malloc")}}
     rp = body.get("replay", {})
     if "entry" not in rp:
         print("replay file names a broken obligation, no input to replay:", json.dumps(rp)[:500])
